@@ -417,6 +417,53 @@ def sqrtDeriv (F : Fns K) (dx x : Cell K) : Trap (DCell K) :=
      let f ← rdivNumber half o
      ok (mul f dx)
 
+/-- arcsin' / arccos': `factor = ±(1. - self.wod**2)**(-0.5)` (scalar.py:424-427, 478-481); the
+    exponent -0.5 is an easy power: `sqrt()` then `reciprocal()` (scalar.py:1515-1516) -/
+def arcsinDeriv (F : Fns K) (acos : Bool) (dx x : Cell K) : Trap (DCell K) :=
+  let w : Cell K := ⟨one - x.v * x.v, x.m⟩
+  do let s ← sqrt F true w
+     let f ← reciprocal false s
+     let f' : Cell K := if acos then ⟨-f.v, f.m⟩ else f
+     ok (mul f' dx)
+
+/-- generic power: `factor = expo * self.__pow__(expo-1, recursive=False)` (scalar.py:1615-1619);
+    `ie1` is the whole-number reading of `expo - 1` -/
+def powDeriv (F : Fns K) (zeroD : Bool) (dflt : K) (dx x e : Cell K) (ie1 : Option IntExp) :
+    Trap (DCell K) :=
+  let e1 : Cell K := ⟨e.v - one, e.m⟩
+  do let p ← (if zeroD then pow0D F dflt x e1 ie1 else powArr F x e1 ie1)
+     ok (mul (mul e p) dx)
+
+def dotList : List K → List K → K
+  | x :: xs, y :: ys => x * y + dotList xs ys
+  | _, _ => zero
+
+/-- norm': `factor = arg.wod / obj; Qube.dot(factor, deriv)` (math_ops.py:311-316) -/
+def normDeriv (F : Fns K) (dx x : VCell K) : Trap (DCell K) :=
+  do let n ← norm F x
+     let f ← vdivByScalar ⟨x.vals, x.m⟩ n
+     ok ⟨dotList f.vals dx.vals, f.m || dx.m⟩
+
+/-- unit' = (self / norm)': `_div_derivs` with the norm's own derivative (qube.py:3448-3479):
+    `dx * inv - x * (dn * inv * inv)`, `inv = reciprocal(nozeros=True)` of the replaced norm -/
+def unitDeriv (F : Fns K) (dx x : VCell K) : Trap (VCell K) :=
+  do let n ← norm F x
+     let nd ← normDeriv F dx x
+     let n' := maskWhere (isZero n.v) one n
+     let inv ← reciprocal true n'
+     let t := mul (mul nd inv) inv
+     ok ⟨List.zipWith (fun d c => d * inv.v - c * t.v) dx.vals x.vals, (dx.m || inv.m) || (x.m || t.m)⟩
+
+/-- Quaternion.reciprocal' = (conj / norm_sq)': norm_sq' = `dot(2 x, dx)` (math_ops.py:362-367) -/
+def quatReciprocalDeriv (dx x : VCell K) : Trap (VCell K) :=
+  let ns : Cell K := ⟨sumSq x.vals, x.m⟩
+  let nsd : Cell K := ⟨dotList (x.vals.map fun c => (one + one) * c) dx.vals, x.m || dx.m⟩
+  let n' := maskWhere (isZero ns.v) one ns
+  do let inv ← reciprocal true n'
+     let t := mul (mul nsd inv) inv
+     ok ⟨List.zipWith (fun d c => d * inv.v - c * t.v) (conj dx.vals) (conj x.vals),
+         (dx.m || inv.m) || (x.m || t.m)⟩
+
 /-! ### instances -/
 
 instance : Num Rat where
